@@ -7,7 +7,8 @@ ENTRY = dict(
         corr_files=["Corr/C13Corr.v"],
         theorems=["c13_pushforward", "c13_expectation", "c13_total", "c13_pruned_bound", "c13_outcome_bound", "c13_event_bound",
                   "c13_support", "c13_refuses", "c13_never_crashes", "c13_sampler", "c13_qsim_instance", "c13_facts",
-                  "c13_qsim_bound", "c13_qsim_outcome_bound"],
+                  "c13_qsim_bound", "c13_qsim_outcome_bound", "c13_branches", "c13_tree_law", "c13_sampler_run_ok",
+                  "c13_sampler_run_refuses", "c13_sampler_run_single", "c13_qsim_born_step"],
         allowed_axioms=[],
         facts=["sim_tolerance", "sim_isclose_sites", "value_error_sites"],
         harness="c13",
@@ -25,6 +26,18 @@ ENTRY = dict(
                    "~900 generated circuits per run (as finite maps: key sets exactly, probabilities within 1e-12), and every case is also "
                    "compared with an independent numpy density-matrix simulator (also for arbitrary unitaries and for ExactSampler runs over "
                    "several parametrised circuits).",
+        level_text_ext="Extension: (i) c13_branches / c13_tree_law -- for every instrument and EVERY tolerance (no hypothesis on p1) the dictionary "
+                   "held when the loop ends is, entry by entry (multiset, Leibniz-equal weights and states), the set of leaves of an explicit branch "
+                   "tree: gate operands applied in instruction order, measurement children clear/set the bit (overwrite), reset children keep the "
+                   "register, children within tol cut with their subtree, leaf weight = product of the conditional probabilities on its path; so the "
+                   "returned map equals the truncated-tree law exactly at the source's 1e-16. (ii) c13_sampler_run_ok/_refuses/_single -- the "
+                   "ExactSampler.run wrapper over several circuits (Qiskit validation of all circuits, then one simulation per circuit): entry i is "
+                   "what the function returns for circuit i alone; one invalid/refusing circuit refuses the call; tied by the samplerq stream "
+                   "(incl. a second run after in-place extension of the same circuit objects on the same sampler). (iii) c13_qsim_born_step -- on the "
+                   "exact simulator, for every vector and qubit: the post-measurement vector is the projection, |P0 v|^2+|P1 v|^2=|v|^2 exactly, and "
+                   "(under the per-state audit bit) p1 = |P1 v|^2/|v|^2 unclamped; q2div is division in Q(sqrt2). STILL NOT PROVED: that QSim's gate "
+                   "actions (x y z h s sdg sx sxdg cx cz swap ccx) are unitary and equal Qiskit's matrices -- every other gate is outside QSim "
+                   "altogether -- and that the audit bit always holds (Clifford+ccx amplitudes have rational squared norms); both are checked per case.",
         level_note=STD_NOTE + "No axioms. The Born rule / Qiskit's Statevector semantics is not formalised: it enters as the abstract "
                    "instrument of the theorems and as Common/QSim.v (definitions, audited per case for exact rational probabilities) in the comparison. "
                    "OBSERVATION (outside the property's quantifier 'unitary gates, barriers, projective measurements and resets'): a reset nested "
